@@ -610,4 +610,11 @@ def check(ctx: Ctx):
         ctx.rule('R11.6', 'notifications cannot feed back into the search (= R13.6), re-run here')
         from . import c13
         c13.r13_6(ctx)
+    if C.want(ctx, 'R11.8'):
+        ctx.rule('R11.8', 'a repeated run starts from the same state: nothing the library writes outlives a Solver in a '
+                          'module / class / default-argument object (= R12.1 and R12.2), re-run here - a second solver '
+                          'for the same inputs would otherwise see what the first one left behind')
+        from . import c12
+        c12.r12_1(ctx)
+        c12.r12_2(ctx)
     ctx.assume('the shipped objectives are deterministic (C15); user objectives are assumed deterministic')
